@@ -23,7 +23,7 @@ open Abra.PatMatrix
 theorem C14_patCompare_correct (env : EnumEnv) (p : Pat) (π : Path) (ty : Ty) (D : List Path) (v : Val)
     (stk : List SVal) (locs : List (Nat × SVal)) (tk : Option Nat)
     (ht : patTyped env p ty = true) (hv : hasTy env v ty = true) :
-    run (cmp env π ty p D).1 (mk (slot env ty v ++ stk) locs tk none) =
+    run (cmp env π ty p D) (mk (slot env ty v ++ stk) locs tk none) =
       some (mk (.bool (pmatch (resolveP env π ty p D) v) :: stk) locs tk none) :=
   cmp_ok env p π ty D v stk locs tk ht hv
 
@@ -32,7 +32,7 @@ theorem C14_patCompare_correct (env : EnumEnv) (p : Pat) (π : Path) (ty : Ty) (
 example : patTyped (fun _ => []) (.tuple [.or (.bool true) (.bool false), .int 2]) (.tuple [.bool, .int]) = true ∧
     hasTy (fun _ => []) (.prod [.bool false, .int 2]) (.tuple [.bool, .int]) = true := by decide +kernel
 
-example : run (cmp (fun _ => []) [0] (.tuple [.bool, .int]) (.tuple [.or (.bool true) (.bool false), .int 2]) [[0, 0]]).1
+example : run (cmp (fun _ => []) [0] (.tuple [.bool, .int]) (.tuple [.or (.bool true) (.bool false), .int 2]) [[0, 0]])
     (mk (slot (fun _ => []) (.tuple [.bool, .int]) (.prod [.bool false, .int 2]) ++ [.int 7]) [] none none) =
     some (mk [.bool (pmatch (resolveP (fun _ => []) [0] (.tuple [.bool, .int])
       (.tuple [.or (.bool true) (.bool false), .int 2]) [[0, 0]]) (.prod [.bool false, .int 2])), .int 7] [] none none) :=
@@ -40,16 +40,16 @@ example : run (cmp (fun _ => []) [0] (.tuple [.bool, .int]) (.tuple [.or (.bool 
     [[0, 0]] (.prod [.bool false, .int 2]) [.int 7] [] none (by decide +kernel) (by decide +kernel)
 
 /-- **Binding code is correct** — the same `handle_pat_binding` serves `match` arms, `let` and `for`:
-    on a value of the pattern's type that the selected alternative (`resolveB`) matches, the code
+    on a value of the pattern's type that the selected alternative (`resolveP`) matches, the code
     consumes exactly the value's stack slot(s), leaves everything below untouched, and stores for
     every variable the representation of the component it stands for (`bindingsOf`: left to right,
     nothing for `void` components, through tuples, positional and named struct/variant fields). -/
 theorem C14_patBind_correct (env : EnumEnv) (p : Pat) (π : Path) (ty : Ty) (D : List Path) (v : Val)
     (stk : List SVal) (locs : List (Nat × SVal)) (tk : Option Nat)
     (ht : patTyped env p ty = true) (hv : hasTy env v ty = true)
-    (hm : pmatch (resolveB env π ty p D) v = true) :
-    run (bind env π ty p D).1 (mk (slot env ty v ++ stk) locs tk none) =
-      some (mk stk ((bindingsOf env ty (resolveB env π ty p D) v).reverse ++ locs) tk none) :=
+    (hm : pmatch (resolveP env π ty p D) v = true) :
+    run (bind env π ty p D) (mk (slot env ty v ++ stk) locs tk none) =
+      some (mk stk ((bindingsOf env ty (resolveP env π ty p D) v).reverse ++ locs) tk none) :=
   bind_ok env p π ty D v stk locs tk ht hv hm
 
 /-- `let` / `for` destructuring: the code run by `let pat = v` binds every variable of an or-free
@@ -58,14 +58,14 @@ theorem C14_let_destructuring (env : EnumEnv) (p : Pat) (ty : Ty) (v : Val) (stk
     (ht : patTyped env p ty = true) (hv : hasTy env v ty = true) (hof : orCount p = 0)
     (hm : pmatch p v = true) :
     runLet env ty p v stk = some ((bindingsOf env ty p v).reverse, stk) := by
-  have h := bind_ok env p [0] ty [] v stk [] none ht hv (by rw [(orfree_bind env p [0] ty [] hof).2]; exact hm)
-  rw [(orfree_bind env p [0] ty [] hof).2] at h
+  have h := bind_ok env p [0] ty [] v stk [] none ht hv (by rw [(orfree_resolve env p [0] ty [] hof).1]; exact hm)
+  rw [(orfree_resolve env p [0] ty [] hof).1] at h
   unfold runLet
   simp only []
   have hst : (if ty.isVoid = true then stk else repr env ty v :: stk) = slot env ty v ++ stk := by
     simp only [slot]; split <;> rfl
   rw [hst]
-  show (match run (bind env [0] ty p []).1 (mk (slot env ty v ++ stk) [] none none) with
+  show (match run (bind env [0] ty p []) (mk (slot env ty v ++ stk) [] none none) with
     | none => none
     | some st => some (st.locals, st.stack)) = _
   rw [h]; simp
@@ -74,12 +74,13 @@ theorem C14_let_destructuring (env : EnumEnv) (p : Pat) (ty : Ty) (v : Val) (stk
     the body of the FIRST PASS, in emission order, whose selected alternative (`passPat`) matches the
     value — and of no other pass —, binds exactly the variables of that alternative to their
     components, and leaves the stack below the scrutinee as it found it.  The passes are those of the
-    arm loop with its shared `or_pat_decisions` set (`allPasses`). -/
+    arm loop (`allPasses`: per arm one pass for every combination of or-pattern alternatives,
+    enumerated like a binary counter; a pass is bound under the decisions it was compared under). -/
 theorem C14_match_takes_first_pass (env : EnumEnv) (ty : Ty) (arms : List Pat) (v : Val) (stk : List SVal)
     (hnv : ty.isVoid = false) (harms : ∀ p ∈ arms, patTyped env p ty = true) (hv : hasTy env v ty = true)
     (r : Nat) (x : Pass)
-    (hr : (allPasses env ty 0 arms 0 []).findIdx? (fun x => pmatch (passPat env ty arms x) v) = some r)
-    (hx : (allPasses env ty 0 arms 0 [])[r]? = some x) :
+    (hr : (allPasses env ty 0 arms 0).findIdx? (fun x => pmatch (passPat env ty arms x) v) = some r)
+    (hx : (allPasses env ty 0 arms 0)[r]? = some x) :
     runMatch env ty arms v stk =
       some (some x.1, some r, (bindingsOf env ty (passPat env ty arms x) v).reverse, stk) :=
   runMatch_general env ty arms v stk hnv harms hv r x hr hx
@@ -92,10 +93,11 @@ theorem C14_match_takes_first_pass (env : EnumEnv) (ty : Ty) (arms : List Pat) (
     the variables bound as `bindingsOf` says (an or-pattern binds through its first alternative that
     matches), and leaves `stk` untouched.
 
-    What is missing for the full statement: or-patterns NESTED inside tuple/struct/variant patterns.
-    For those `C14_match_takes_first_pass` says what the code does (first matching pass), but the passes
-    are not connected to `pmatch` of the whole arm here; with two or-patterns side by side the full
-    statement is FALSE on the code as it is (`C14_match_selects_first_counterexample`, known finding D27). -/
+    What is missing for the full statement: or-patterns NESTED inside tuple/struct/variant patterns
+    (e.g. `(1 | 2, 3 | 4)`).  For those `C14_match_takes_first_pass` says what the code does (first
+    matching pass), but that the binary-counter passes enumerate exactly the alternatives of the arm,
+    in left-to-right order, is not proved here (it is checked by the correspondence on every run;
+    the repaired D27 input is `C14_d27_regression`). -/
 theorem C14_match_selects_first_partial (env : EnumEnv) (ty : Ty) (arms : List Pat) (v : Val) (stk : List SVal)
     (hnv : ty.isVoid = false) (harms : ∀ p ∈ arms, patTyped env p ty = true) (hch : ∀ p ∈ arms, isChain p)
     (hv : hasTy env v ty = true) (k : Nat) (hk : arms.findIdx? (fun p => pmatch p v) = some k) :
@@ -107,22 +109,20 @@ theorem C14_match_selects_first_partial (env : EnumEnv) (ty : Ty) (arms : List P
 theorem C14_orfree_is_chain {p : Pat} (h : orCount p = 0) : isChain p := isChain_orfree h
 
 -- OPEN: C14_match_selects_first — the same conclusion for arms with or-patterns nested inside
--- constructor patterns (at most one or-chain per arm).  Checked by the correspondence on every run
--- (nested or-patterns with and without bindings are in the generator's main stream); not proved.
+-- constructor patterns (the binary-counter enumeration of `armPasses` is complete and ordered).
+-- Checked by the correspondence on every run (nested and side-by-side or-patterns, with and without
+-- bindings, are in the generator's main stream); not proved.
 
 def d27Ty : Ty := .tuple [.int, .int]
 def d27Arms : List Pat := [.tuple [.or (.int 1) (.int 2), .or (.int 3) (.int 4)], .wild]
-def d27Val : Val := .prod [.int 1, .int 4]
 
-/-- **D27 (known finding), as the code is**: with two or-patterns side by side the arm loop only tries
-    the all-left and the all-right combination: `(1, 4)` matches arm 0 `(1 | 2, 3 | 4)` but the
-    compiled code takes arm 1. -/
-theorem C14_match_selects_first_counterexample :
-    (∀ p ∈ d27Arms, patTyped (fun _ => []) p d27Ty = true) ∧ hasTy (fun _ => []) d27Val d27Ty = true ∧
-    d27Arms.findIdx? (fun p => pmatch p d27Val) = some 0 ∧
-    (runMatch (fun _ => []) d27Ty d27Arms d27Val []).map (fun r => r.1) = some (some 1) := by
-  refine ⟨by decide +kernel, by decide +kernel, ?_, by decide +kernel⟩
-  simp [d27Arms, d27Val, List.findIdx?_cons, pmatch, pmatchAll]
+/-- **D27 regression** (repaired by b67d291): with two or-patterns side by side every combination is
+    tried — `(1, 4)`, `(2, 3)`, `(1, 3)`, `(2, 4)` take arm 0, `(1, 5)` takes arm 1. -/
+theorem C14_d27_regression :
+    ([(1, 4), (2, 3), (1, 3), (2, 4), (1, 5)] : List (Int × Int)).map (fun x =>
+      (runMatch (fun _ => []) d27Ty d27Arms (.prod [.int x.1, .int x.2]) []).map (fun r => r.1)) =
+    [some (some 0), some (some 0), some (some 0), some (some 0), some (some 1)] := by
+  decide +kernel
 
 /-! Non-vacuity of the hypotheses of the match and binding theorems. -/
 
